@@ -191,7 +191,21 @@ impl serde::Serialize for Refuses {
 
 fn wide(rng: &mut Rng) -> String {
     let n = [33usize, 64, 65, 129, 257, 1000, 1025, 4097][rng.below(8)] + rng.below(3);
-    match rng.below(7) {
+    match rng.below(10) {
+        7 | 8 | 9 => {
+            // data that looks like the private spellings libraries use for their own bookkeeping
+            // (serde_json's number / raw-value tokens, debug renderings, tag keys): it is just data
+            const MAGIC_KEYS: [&str; 8] = ["$serde_json::private::Number", "$serde_json::private::RawValue", "$__toml_private_datetime", "__proto__", "$ref", "@type", "", "<expression: k>"];
+            const MAGIC_VALS: [&str; 10] = ["\"12\"", "\"-1.5e3\"", "\"1e999\"", "\"<expression: a + b>\"", "\"<expression: >\"", "\"null\"", "12", "\"{\\\"a\\\":1}\"", "\"NaN\"", "[\"12\"]"];
+            let k = MAGIC_KEYS[rng.below(MAGIC_KEYS.len())];
+            let v = MAGIC_VALS[rng.below(MAGIC_VALS.len())];
+            match rng.below(4) {
+                0 => format!("{{\"{}\":{}}}", k, v),
+                1 => format!("[{{\"{}\":{}}}, {{\"{}\":{}, \"x\":1}}]", k, v, k, v),
+                2 => format!("{{\"doc\":{}, \"id\":7, \"o\":{{\"{}\":{}}}}}", v, k, v),
+                _ => format!("[{}, {}]", v, v),
+            }
+        }
         5 => {
             // strings that look like structure: brackets, braces, quotes and backslashes in bulk, after a
             // string that ends in an escaped backslash (a scanner that tracks "inside a string" by looking
